@@ -1,5 +1,6 @@
 """C08 — Gaussian particle filter: beliefs and importance weights (DESIGN.md §5 C08)."""
 import math
+import os
 import numpy as np
 from vlib import caseio, gen, runner
 
@@ -15,12 +16,19 @@ MODEL_NEEDS_IMPL = True                  # the standard-normal draws logged by t
 TIMEOUT = 1500
 REQUIRED_THEOREMS = ["C08_predict_frame", "C08_predict_beliefs", "C08_correct_beliefs", "C08_correct_positions",
                      "C08_correct_likelihood_on_drawn", "C08_weight_formula", "C08_weight_product_form",
-                     "C08_invalid_restores", "C08_mahalanobis", "C08_multi_step", "C08_kf_conjugate_beliefs"]
+                     "C08_invalid_restores", "C08_mahalanobis", "C08_multi_step", "C08_kf_conjugate_beliefs", "C08_kf_mahalanobis",
+                     "C08_weights_telescope", "C08_draws_from_own_generator", "C08_draw_touches_own_generator_only",
+                     "C08_move_assign_transfers_likelihood_model", "C08_fresh_reports_invalid",
+                     "C08_pre_fix_draws_from_own_generator_refuted", "C08_pre_fix_fresh_likelihood_invalid_refuted", "C08_pre_fix_move_assign_refuted"]
 RULE = ("cases from one seeded stream: n in 1..4 (4 with the library's WhiteNoiseAcceleration as transition model), m in 1..3, "
         "N in 1..30 particles, 1..5 steps on the two persistent buffers, H random / rank-deficient / selector / zero, SPD P_i, Q, R with "
         "chosen condition numbers, transition model linear-Gaussian (same as or different from the prediction model) / WNA / Cauchy-like, "
-        "steps with an unusable measurement or a likelihood model that reports invalid, 32-bit seeds, likelihood scale factors; "
-        "non-trivial = N >= 2 and at least one valid correction; distinct by (n, m, N class, steps, tkind, invalid pattern, cond decade)")
+        "wrapped steps KF / UKF (additive) / SUKF over the LTI models (the model side uses the Kalman steps: C04/C05 equivalence), "
+        "steps with an unusable measurement or a likelihood model that reports invalid, outlier measurements and far-off positions (densities in the "
+        "underflow range), 32-bit seeds, likelihood scale factors incl. 0; "
+        "plus lifetime cases (getLikelihood() on a fresh object constructed in 0xFF-filled storage; move construction + destruction of the source; "
+        "move-assignment chain a2 = move(a1); a1 = move(a3) with different seeds and likelihood models, compared with never-moved reference objects); "
+        "non-trivial = N >= 2 and at least one valid correction; distinct by (n, m, N class, steps, tkind, wrap, invalid pattern, cond decade)")
 TRUSTED_BASE = ["Coq 8.16.1 kernel (coqc); structural, Mahalanobis and C01-composition theorems are axiom-free; the product form of the weight update "
                 "is over Coq's R and uses the four real-number axioms of the standard library (sig_forall_dec, sig_not_dec, functional_extensionality_dep, classic)",
                 "MathComp 1.15 matrix theory",
@@ -38,10 +46,19 @@ ASSUMPTIONS = ["std::normal_distribution<double>(0,1) over std::mt19937_64 yield
                "the likelihood model returns one value per position and the transition model one value per pair (length premises), with non-negative values (premise of the product form)",
                "Eigen inverse()/determinant() behave as matrix inverse/determinant up to rounding"]
 
-COUNTS = {"quick": 220, "thorough": 5000}
+# Lifetime kinds (Properties_C08.v, "lifetime" section): gpf_fresh (getLikelihood() before the first correction) and
+# gpf_moved (move construction followed by destruction of the source; move-assignment chain with every object alive).
+# Always generated, in both tiers: they pass on HEAD (fix commits d193577, 57c1b76) and catch a revert of either commit.
+SIG_MOVED = "C08:moved-object-draws-from-moved-from-object"
+SIG_FRESH = "C08:getLikelihood-valid-before-first-correction"
+SIG_ASSIGN_GEN = "C08:move-assigned-object-draws-from-another-generator"
+SIG_ASSIGN_LIK = "C08:move-assign-keeps-old-likelihood-model"
+LIFETIME_COUNT = {"quick": 4, "thorough": 20}
+
+COUNTS = {"quick": 400, "thorough": 5000}
 KS_CASES = {"quick": 0, "thorough": 60}
 EPS = 2.2250738585072014e-308
-_stats = {"near_pivot_tie_skipped": 0, "underflow_histories": 0, "d2": {}, "ks_cases": 0}
+_stats = {"other_factor_steps": 0, "underflow_histories": 0, "d2": {}, "ks_cases": 0}
 
 
 # ------------------------------------------------------------------ generation
@@ -68,14 +85,22 @@ def wna(T, q):
     return np.block([[F2, Z], [Z, F2]]), np.block([[Q2, Z], [Z, Q2]])
 
 
-def make_case(rng, cid, n=None, N=None, steps=None, tkind=None, allvalid=False, kind="gpf"):
+def make_case(rng, cid, n=None, N=None, steps=None, tkind=None, allvalid=False, kind="gpf", wrap=None):
     n = n or rng.randint(1, 4); m = rng.randint(1, 3)
     N = N or rng.choice([1, 2, 3, rng.randint(4, 12), rng.randint(13, 30)])
     steps = steps or rng.randint(1, 5)
     if tkind is None:
         tkind = rng.choice(["lingauss", "lingauss", "cauchy"] + (["wna", "wna", "wna"] if n == 4 else []))
-    meta = {"n": n, "m": m, "N": N, "steps": steps, "tkind": tkind, "wrap": "kf"}
+    wrap = wrap or rng.choice(["kf"] * 7 + ["ukf"] * 2 + ["sukf"])
+    meta = {"n": n, "m": m, "N": N, "steps": steps, "tkind": tkind, "wrap": wrap}
     c = caseio.Case(cid, kind, meta)
+    if wrap != "kf":
+        # unscented parameters with n + lambda > 0 (lambda = alpha^2 (n + kappa) - n)
+        if wrap == "ukf":
+            c.mat("ut", [[rng.uniform(0.6, 1.0), rng.choice([0.0, 2.0]), rng.choice([0.0, 1.0, 3.0 - n if n < 3 else 0.0])]])
+        else:
+            # the serial UKF takes square roots of the covariance weights: parameters with non-negative weights (C05's domain)
+            c.mat("ut", [[1.0, 2.0, rng.choice([0.0, 1.0, 2.0])]])
     F, fk = stable_F(rng, n)
     Q, cq = gen.spd(rng, n, 10 ** rng.uniform(0, 2), lo=10 ** rng.uniform(-1, 0.3))
     if tkind == "wna":
@@ -99,7 +124,7 @@ def make_case(rng, cid, n=None, N=None, steps=None, tkind=None, allvalid=False, 
     spread = 10 ** rng.uniform(-1.0, 0.2)
     covs, cond = [], max(cq, cr, np.linalg.cond(Qt))
     for i in range(N):
-        P, cp = gen.spd(rng, n, 10 ** rng.uniform(0, 3), lo=spread ** 2 * 10 ** rng.uniform(-0.5, 0.5))
+        P, cp = gen.spd(rng, n, 10 ** rng.uniform(0, 4.5), lo=spread ** 2 * 10 ** rng.uniform(-0.5, 0.5))
         covs.append(P); cond = max(cond, cp)
     means = truth + gen.matrix(rng, n, N, spread)
     states = means + gen.matrix(rng, n, N, 0.7 * spread)
@@ -112,9 +137,16 @@ def make_case(rng, cid, n=None, N=None, steps=None, tkind=None, allvalid=False, 
     for k in range(steps):
         xt = F @ xt
         ys[:, k:k + 1] = H @ xt + np.linalg.cholesky(R) @ gen.matrix(rng, m, 1, 1.0)
+    outlier = rng.random() < 0.08
+    if outlier:
+        # one measurement tens of standard deviations off: likelihoods in the underflow range (ln(0 + eps) is exercised)
+        u = gen.matrix(rng, m, 1, 1.0); u /= np.linalg.norm(u)
+        ys[:, rng.randrange(steps)] += (np.linalg.cholesky(R) @ u)[:, 0] * rng.uniform(80, 400)
     mv = [1 if (allvalid or rng.random() < 0.9) else 0 for _ in range(steps)]
     lok = [1 if (allvalid or rng.random() < 0.9) else 0 for _ in range(steps)]
     scale = 1.0 if rng.random() < 0.5 else 10 ** rng.uniform(-3, 3)
+    if rng.random() < 0.03:
+        scale = 0.0                                  # every likelihood exactly 0: ln(0 + eps)
     # the covariance recursion does not depend on the data: its conditioning is known in advance
     Ps = [P.copy() for P in covs]
     for k in range(steps):
@@ -130,7 +162,7 @@ def make_case(rng, cid, n=None, N=None, steps=None, tkind=None, allvalid=False, 
             Ps = nxt
             cond = max(cond, max(np.linalg.cond(P) for P in Ps))
     c.meta.update({"fkind": fk, "hkind": hkind, "cond": "%.3g" % cond, "invalid": "".join("v" if (a and b) else ("m" if not a else "l") for a, b in zip(mv, lok)),
-                 "same_trans": int(np.array_equal(F, Ft) and np.array_equal(Q, Qt))})
+                 "same_trans": int(np.array_equal(F, Ft) and np.array_equal(Q, Qt)), "outlier": int(outlier), "scale0": int(scale == 0.0)})
     c.mat("F", F).mat("Q", Q).mat("H", H).mat("R", R).mat("Ft", Ft).mat("Qt", Qt)
     c.mat("c_state", states).mat("c_mean", means).mat("c_cov", np.hstack(covs)).mat("c_lw", lw.reshape(-1, 1))
     c.mat("p_state", gen.matrix(rng, n, N, 5.0)).mat("p_mean", gen.matrix(rng, n, N, 5.0))
@@ -146,14 +178,19 @@ def generate(rng, tier):
     # supporting statistics: many particles, every correction valid, one seed per case
     for k in range(KS_CASES[tier]):
         cases.append(make_case(rng, "ks%d" % k, n=1 + k % 4, N=30, steps=5, allvalid=True, kind="gpf_ks"))
+    for k in range(LIFETIME_COUNT[tier]):
+        cases.append(make_case(rng, "fresh%d" % k, steps=1, allvalid=True, kind="gpf_fresh", wrap="kf"))
+        cases.append(make_case(rng, "moved%d" % k, steps=1, allvalid=True, kind="gpf_moved", wrap="kf"))
     return cases
 
 
 def nontrivial(c):
+    if c.kind in ("gpf_fresh", "gpf_moved"):
+        return None
     n, m, N, steps = (int(c.meta[k]) for k in ("n", "m", "N", "steps"))
     if N >= 2 and "v" in c.meta["invalid"]:
         ncls = "2-3" if N <= 3 else ("4-12" if N <= 12 else "13-30")
-        return (n, m, ncls, steps, c.meta["tkind"], c.meta["invalid"], gen.decade(float(c.meta["cond"])))
+        return (n, m, ncls, steps, c.meta["tkind"], c.meta["wrap"], c.meta["invalid"], gen.decade(float(c.meta["cond"])))
     return None
 
 
@@ -163,11 +200,15 @@ UNDERFLOW = 1e-290
 
 
 def compare(c, impl, model):
+    if c.kind in ("gpf_fresh", "gpf_moved"):
+        return []
     cond = float(c.meta["cond"])
     steps = int(c.meta["steps"])
-    tie = model.get("pivot_gap", math.inf) < 1e-6
-    if tie:
-        _stats["near_pivot_tie_skipped"] += 1
+    # The square-root factor is left free by the property: when the implementation's positions are not m + L z for the
+    # driver's LDL^T factor, the driver maps them back (z' = L^-1 (x - m)), re-runs the step on z' and reports
+    # | |z'|^2 - |z|^2 | (zz_dev): positions are then compared through the relation the property states.
+    if model.get("other_factor_steps", 0) > 0:
+        _stats["other_factor_steps"] += model.get("other_factor_steps")
     fields, tiny = [], []
     uf = False      # a density of this or an earlier step is in the underflow range
     for k in range(steps):
@@ -175,10 +216,6 @@ def compare(c, impl, model):
         fields += ["p%d_mean" % k, "p%d_cov" % k, "c%d_mean" % k, "c%d_cov" % k]
         if k == 0:
             fields += ["p0_state", "p0_lw"]
-        if tie:
-            # the draws are mapped to positions through the LDL^T factor; with a near-tie in its pivoting
-            # the two sides may legitimately use different factors (counted, not compared)
-            continue
         fields += ["p%d_state" % k, "c%d_state" % k, "valid%d" % k]
         if not uf:
             fields.append("p%d_lw" % k)
@@ -198,6 +235,9 @@ def compare(c, impl, model):
             fields.append("c%d_lw" % k)
     d = caseio.compare_fields(impl, model, fields, atol=1e-300, rtol=1e-9, scale=cond)
     d += caseio.compare_fields(impl, model, tiny, atol=UNDERFLOW, rtol=1e-9, scale=cond)
+    zz = model.get("zz_dev", 0.0)
+    if zz > 1e-7 * cond or math.isnan(zz):
+        d.append("positions are not m + L z for a factor with L L^T = P: relative | |L^-1 (x-m)|^2 - |z|^2 | = %.3g" % zz)
     if model.get("sqrt_resid", 0.0) > 1e-10 * cond or math.isnan(model.get("sqrt_resid", 0.0)):
         d.append("square-root oracle of the model violates its contract: |LL^T-P|/|P| = %.3g" % model.get("sqrt_resid"))
     return d
@@ -213,6 +253,10 @@ def _logdens(x, mean, cov):
 
 def _exp(v):
     return math.exp(v) if v > -745.2 else 0.0
+
+
+def _absmax(v):
+    return abs(v) if math.isfinite(v) else 1.0
 
 
 def chi2_cdf(x, k):
@@ -244,7 +288,44 @@ def ks_test(samples, k):
     return D, min(1.0, max(0.0, p))
 
 
+def _same(a, b):
+    return a is not None and b is not None and a.shape == b.shape and bool(np.all((a == b) | (np.isnan(a) & np.isnan(b))))
+
+
+def lifetime_oracle(c, impl):
+    if c.kind == "gpf_fresh":
+        if impl.get("fresh_valid") != 0:
+            return [(SIG_FRESH, "getLikelihood() on a GPFCorrection that has not corrected yet reports valid = %s with %s values: valid_likelihood_ is not "
+                     "initialised by the constructors (object constructed in storage pre-filled with 0xFF)" % (impl.get("fresh_valid"), impl.get("fresh_lik_size")))]
+        return []
+    v = []
+    if not _same(impl.get("first_state"), impl.get("ref_first_state")):
+        v.append(("C08:draws-not-the-seeded-stream", "first correction of the object differs from a reference object with the same seed"))
+    if not _same(impl.get("assign_state"), impl.get("ref_assign_state")):
+        v.append((SIG_ASSIGN_GEN, "a2 = std::move(a1); a1 = std::move(a3); (all alive) the positions then drawn by a2 differ from those of a never-moved object with a1's "
+                  "seed and history (max diff %.3g): a2 does not read its own generator" % caseio.maxdiff(impl.get("assign_state"), impl.get("ref_assign_state"))))
+    if impl.get("assign_valid") != impl.get("ref_assign_valid") or not _same(impl.get("assign_lik"), impl.get("ref_assign_lik")):
+        if _same(impl.get("assign_state"), impl.get("ref_assign_state")):
+            v.append((SIG_ASSIGN_LIK, "a2 = std::move(a1): a2 does not evaluate a1's likelihood model (max diff of the likelihood values %.3g)"
+                      % caseio.maxdiff(impl.get("assign_lik"), impl.get("ref_assign_lik"))))
+    if not _same(impl.get("moved_state"), impl.get("ref_state")):
+        v.append((SIG_MOVED, "after GPFCorrection b(std::move(a)); a.~GPFCorrection() the positions drawn by b differ from those of a never-moved object with the same "
+                  "seed and history (max diff %.3g): the moved closure gaussian_random_sample_ still reads a's generator_/distribution_" % caseio.maxdiff(impl.get("moved_state"), impl.get("ref_state"))))
+    return v
+
+
+def on_crash(c, info, model):
+    """Sanitizer reports for the lifetime kinds are the same findings (reads of never-written / destroyed storage)."""
+    if c.kind == "gpf_fresh" and info["kind"] in ("ubsan", "asan"):
+        return [(SIG_FRESH, "sanitizer: " + info["stderr"][-300:])]
+    if c.kind == "gpf_moved" and info["kind"] in ("ubsan", "asan"):
+        return [(SIG_MOVED, "sanitizer: " + info["stderr"][-300:])]
+    return None
+
+
 def oracle(c, impl, model):
+    if c.kind in ("gpf_fresh", "gpf_moved"):
+        return lifetime_oracle(c, impl)
     v = []
     n, m, N, steps = (int(c.meta[k]) for k in ("n", "m", "N", "steps"))
     cond = float(c.meta["cond"])
@@ -314,7 +395,7 @@ def oracle(c, impl, model):
                     v.append(("C08:mahalanobis", "%s particle %d: (x-m)^T P^-1 (x-m) = %.12g but |z|^2 = %.12g" % (tag, i, d2, zz)))
                 d2_case.append(d2)
                 # likelihood on the drawn position, transition on (previous position, drawn position), proposal at the drawn position
-                ls = math.log(scale) + _logdens(ys[:, k], H @ x, R)
+                ls = (math.log(scale) if scale > 0 else -math.inf) + _logdens(ys[:, k], H @ x, R)
                 if not _close_dens(li, ls, 1e-7 * cond):
                     v.append(("C08:likelihood-not-on-drawn-states", "%s particle %d: likelihood %.6g, scale*N(y; H x_i, R) at the drawn position = %.6g" % (tag, i, li, _exp(ls))))
                 if tk == "cauchy":
@@ -332,9 +413,8 @@ def oracle(c, impl, model):
             break
     # supporting statistics (never a finding unless grossly off)
     if d2_case:
-        _stats["d2"].setdefault(n, []).extend(d2_case)
+        _stats["d2"][c.id] = (n, d2_case)        # keyed by case: the oracle runs once per build variant
     if c.kind == "gpf_ks" and d2_case:
-        _stats["ks_cases"] += 1
         D, p = ks_test(d2_case, n)
         if p < 1e-6:
             v.append(("C08:chi-square-grossly-off", "squared Mahalanobis distances of %d draws vs chi-square(%d): KS D = %.3f, p = %.3g" % (len(d2_case), n, D, p)))
@@ -344,13 +424,15 @@ def oracle(c, impl, model):
 def _close_dens(val, logspec, rtol):
     """val against exp(logspec): relative in the normal range, absolute near underflow."""
     spec = _exp(logspec)
-    return abs(val - spec) <= rtol * max(1.0, abs(logspec)) * max(val, spec) + 1e-300
+    return abs(val - spec) <= rtol * max(1.0, _absmax(logspec)) * max(val, spec) + 1e-300
 
 
 def histogram(cases):
-    h = {"n": {}, "N": {}, "steps": {}, "tkind": {}, "invalid_pattern_classes": {}, "cond_decade": {}}
+    h = {"n": {}, "N": {}, "steps": {}, "tkind": {}, "wrap": {}, "invalid_pattern_classes": {}, "cond_decade": {}}
+    h["lifetime_cases"] = sum(1 for c in cases if c.kind in ("gpf_fresh", "gpf_moved"))
+    cases = [c for c in cases if c.kind not in ("gpf_fresh", "gpf_moved")]
     for c in cases:
-        for k in ("n", "steps", "tkind"):
+        for k in ("n", "steps", "tkind", "wrap"):
             h[k][str(c.meta[k])] = h[k].get(str(c.meta[k]), 0) + 1
         N = int(c.meta["N"]); ncls = "1" if N == 1 else ("2-3" if N <= 3 else ("4-12" if N <= 12 else "13-30"))
         h["N"][ncls] = h["N"].get(ncls, 0) + 1
@@ -358,11 +440,14 @@ def histogram(cases):
         h["invalid_pattern_classes"][icls] = h["invalid_pattern_classes"].get(icls, 0) + 1
         d = str(gen.decade(float(c.meta["cond"]))); h["cond_decade"][d] = h["cond_decade"].get(d, 0) + 1
     ks = {}
-    for n, s in sorted(_stats["d2"].items()):
+    byn = {}
+    for n, s in _stats["d2"].values():
+        byn.setdefault(n, []).extend(s)
+    for n, s in sorted(byn.items()):
         D, p = ks_test(s, n)
         ks["n=%d" % n] = {"samples": len(s), "KS_D": round(D, 5), "p_value": float("%.3g" % p), "mean_d2": round(float(np.mean(s)), 4)}
     h["chi_square_support"] = ks
-    h["near_pivot_tie_skipped"] = _stats["near_pivot_tie_skipped"]
+    h["steps_compared_through_another_square_root_factor"] = _stats["other_factor_steps"]
     h["underflow_histories_weights_not_compared"] = _stats["underflow_histories"]
     return h
 
@@ -376,6 +461,8 @@ LEVEL_TEXT = ("Proof: for the model of GPFPrediction::predictStep and GPFCorrect
               "and with C01's Kalman correction as wrapped step the beliefs are the information-form posteriors. The chi-square law of the distances is reduced to this identity "
               "plus the assumption that the draws are standard normal. The model is tied to the code by running the extracted model and the library on the same generated histories.")
 LEVEL_NOTE = ("Trusted: Coq kernel, MathComp, stdlib Reals axioms (product form only), extraction + float driver incl. its LDL^T square root, list instance of the matrix interface, "
-              "harness and tolerances; rounding is not modelled; the tie to the code is sampled (220 quick / 5000 thorough histories). The distribution clause is an identity plus an "
-              "assumption on std::normal_distribution (KS test as supporting evidence only). UKF/SUKF wrapped steps are covered by the theorems (any wrapped step) but the "
-              "correspondence check drives KF steps.")
+              "harness and tolerances; rounding is not modelled; the tie to the code is sampled (400 quick / 5000 thorough histories). The distribution clause is an identity plus an "
+              "assumption on std::normal_distribution (KS test as supporting evidence only). The theorems hold for any wrapped step; the correspondence check drives "
+              "KFPrediction/KFCorrection, UKFPrediction/UKFCorrection and UKFPrediction/SUKFCorrection over LTI models and compares them with the Kalman-step model "
+              "(equal on linear-Gaussian models by C04/C05). Where a density is below 1e-290 (Eigen's vectorised exp floors at 5.56e-309 instead of 0) log-weights "
+              "are checked by the identity on the implementation's own values only.")
